@@ -205,7 +205,9 @@ SENDP_READS = [("packet.size", "size", "Z"), ("packet.flow_id", "flow", "Z"), ("
                ("self.out", "out_set", "optobj")]
 SENDP_FX = [("self.current_packet = packet", "FxSetCurrent", []), ("self.current_packet = None", "FxClearCurrent", []),
             ("self.out.put(packet)", "FxOutPut", [])]
-SENDP_FX_CONS = [("FxSetCurrent", ""), ("FxClearCurrent", ""), ("FxOutPut", "")]
+# FxOutPut carries what the next hop can see of the scheduler inside its put(): the counters of the packet's flow
+SENDP_SEES = {"FxOutPut": ["self.queue_count[packet.flow_id]", "self.queue_byte_size[packet.flow_id]"]}
+SENDP_FX_CONS = [("FxSetCurrent", ""), ("FxClearCurrent", ""), ("FxOutPut", "(count_of_flow : Z) (bytes_of_flow : Z)")]
 SENDP_REQUESTS = [("self.env.timeout(_1)", "RqTimeout", ["Q"], None), ("env.timeout(_1)", "RqTimeout", ["Q"], None)]
 
 
@@ -213,7 +215,8 @@ def extracted_sendpacket_run(repo):
     import os
     from vlib import translate_gen as tg
     spec = tg.GenSpec(os.path.join(repo, "onl", "scheduler", "base.py"), "Scheduler", "send_packet", "gen_Scheduler_send_packet",
-                      reads=SENDP_READS, effects=SENDP_FX, requests=SENDP_REQUESTS, objects=["packet"], param_objects=["packet"])
+                      reads=SENDP_READS, effects=SENDP_FX, requests=SENDP_REQUESTS, objects=["packet"], param_objects=["packet"],
+                      sees=SENDP_SEES)
     return tg.gen_run_module("onl/scheduler/base.py: Scheduler.send_packet", spec, SENDP_STATE, "sendp_st", "sd_", "sendp_fx",
                              SENDP_FX_CONS, [("RqTimeout", "(d : Q)")], types="sendp")
 
@@ -789,7 +792,8 @@ class MQPart:
                         W["msgs"].append(f"mq-overlap: transmission of {cur} starts while {insvc[0]} is in transmission")
                     if cur is None or cur != committed:
                         W["msgs"].append(f"mq-start-other: transmission starts with current_packet={cur}, dequeued packet was {committed}")
-                    insvc = (cur, now)
+                    # keep following the packet run() dequeued even when current_packet does not name it (reported above)
+                    insvc = (committed if committed is not None else cur, now)
                     committed = None
                 ends = list(e[2])
                 if case.get("noout"):
@@ -804,6 +808,11 @@ class MQPart:
                             ends = [None]
                 for o in ends:
                     uid = o[2] if o is not None else insvc[0]
+                    if uid is None or str(uid) not in specs:
+                        W["msgs"].append(f"mq-forward-unknown: a transmission ends at {now} with a packet the workload does not contain "
+                                         f"(uid {uid}; in service: {insvc})")
+                        insvc = None
+                        continue
                     ev["fwd"].append(uid)
                     forwarded.append(uid)
                     if o is not None and len(o) > 5:
